@@ -98,7 +98,7 @@ def family(tier):
     rule; optionally a second scenario S2 (@s2, one passing step) in front of S1 at feature
     level ("before"; only with a rule, it then precedes the rule) or behind S1 in the same
     container ("after")."""
-    stag_opts = ([], ["s", "s_"]) if tier == "quick" else ([], ["s"], ["s", "s_"])
+    stag_opts = ([], ["s"], ["s", "s_"])
     for with_rule in (False, True):
         for second in (None, "after", "before"):
             if second == "before" and not with_rule:
@@ -326,7 +326,7 @@ def pair_cases(tier):
                                scenario("S2", [step("b0", "pass")], ["s2"])], [])]]
         stops = (False,)
     else:
-        pool = [t for t in family("quick")][::5] + [trees for _, trees in big_trees()]
+        pool = [t for t in family(tier)][::3] + [trees for _, trees in big_trees()]
         stops = (False, True)
     for trees in pool:
         for stop in stops:
@@ -394,20 +394,20 @@ def run_selection(tier, rng):
 CHECKS = [
     BoundedCheck(
         "nesting",
-        bound={"quick": "family: S1 (tags {none, [s, s_]}, steps {[pass], [fail], [pass, fail]}) in the feature (tags "
+        bound={"quick": "family: S1 (tags {none, [s], [s, s_]}, steps {[pass], [fail], [pass, fail]}) in the feature (tags "
                         "{none, [f]}) or in a rule (tags {none, [r], [r, r_]}), optional second scenario S2 @s2 behind "
-                        "S1 or in front of the rule (120 trees) x {no flag, --stop, --dry-run, --tags=s2}; plus 3 "
+                        "S1 or in front of the rule (180 trees) x {no flag, --stop, --dry-run, --tags=s2}; plus 3 "
                         "larger trees (all levels tagged incl. outline with parametrised tag, examples, backgrounds; "
                         "two features; skip/undefined steps) x 4 negation-free tag expressions x {no flag, --stop, "
                         "--dry-run}; exhaustive, fault-free",
-               "thorough": "as quick with S1 tags {none, [s], [s, s_]} (180 trees)"},
+               "thorough": "as quick"},
         run=run_nesting, replay=eval_nesting,
         contract="the recorded hook log is a sentence of the bracket grammar (own recogniser) and equals the log the "
                  "interpreter generates for the tree (one before_tag/after_tag per own tag in order around "
                  "before_X/after_X; only executed elements; empty in dry-run)"),
     BoundedCheck(
         "fault-single",
-        bound={"quick": "the 120 trees of nesting (no tag expression; --stop additionally for trees with two scenarios) "
+        bound={"quick": "the 180 trees of nesting (no tag expression; --stop additionally for trees with two scenarios) "
                         "and the 3 larger trees x {none, s2, s or e} x {no flag, --stop}: EVERY hook invocation k of the "
                         "fault-free run raises RuntimeError, except the tag hooks of a rule's "
                         "own tags (see fault-rule-tag-hook); exhaustive",
@@ -433,7 +433,7 @@ CHECKS = [
         bound={"quick": "2 trees (F[f]{S1[s]} and F{S1[s]; S2[s2]}) x all pairs k1 < k2 of injection points (k2 "
                         "numbered in the run with k1 raising; tag hooks of rule tags excluded); RuntimeError; "
                         "exhaustive",
-               "thorough": "every 5th tree of the quick family (24) and the 3 larger trees x {no flag, --stop} x all "
+               "thorough": "every 3rd tree of the family (60) and the 3 larger trees x {no flag, --stop} x all "
                            "pairs k1 < k2; RuntimeError; exhaustive"},
         run=run_pairs, replay=eval_fault,
         contract="as fault-single with two raising invocations"),
